@@ -5,6 +5,9 @@ import itertools as itt
 
 import networkx as nx
 
+from y0.dsl import CounterfactualVariable, Intervention
+from y0.graph import NxMixedGraph, _ensure_set
+
 
 def nodes_on_directed_paths_dag(graph, sources, targets):
     # v lies on a directed path s ~> v ~> t for some (s, t); an endpoint s or t counts only for a pair (s, t) that IS connected
@@ -27,3 +30,45 @@ def nodes_on_directed_paths_cyclic(graph, sources, targets):
         for path in nx.all_simple_paths(graph, source, target)
         for node in path
     }
+
+
+# ---- the prefix of a topological order before the first of the given nodes
+def prefix_before(self, nodes, topological_sort_order=None):
+    if not topological_sort_order:
+        topological_sort_order = list(self.topological_sort())
+    node_set = _ensure_set(nodes)
+    pre = []
+    for node in topological_sort_order:
+        if node in node_set:
+            break
+        pre.append(node)
+    return pre
+
+
+# ---- intervention: every node relabelled; a directed edge survives iff its target is free, a bidirected edge iff both endpoints are
+def is_free(node, interventions):
+    if isinstance(node, Intervention | CounterfactualVariable):
+        raise TypeError("this shouldn't happen since the graph should not have interventions as nodes")
+    return (+node not in interventions) and (-node not in interventions)
+
+
+def intervened(self, variables):
+    return self.from_edges(
+        nodes=[node.intervene(variables) for node in self.nodes()],
+        directed=[(u.intervene(variables), v.intervene(variables)) for u, v in self.directed.edges() if is_free(v, variables)],
+        undirected=[
+            (u.intervene(variables), v.intervene(variables))
+            for u, v in self.undirected.edges()
+            if is_free(u, variables) and is_free(v, variables)
+        ],
+    )
+
+
+# ---- equality: same node set, same directed edge set, same bidirected edge set (set views: insertion order plays no part)
+def same_graph(self, other) -> bool:
+    return (
+        isinstance(other, NxMixedGraph)
+        and self.nodes() == other.nodes()
+        and self.directed.edges() == other.directed.edges()
+        and self.undirected.edges() == other.undirected.edges()
+    )
